@@ -92,6 +92,10 @@ impl Report {
         }
     }
     pub fn disagree(&mut self, signature: &str, detail: String, replay: Value) {
+        if signature.starts_with("machinery-") {
+            self.machinery(format!("{}: {}", signature, detail));
+            return;
+        }
         let e = self.disagreements.entry(signature.to_string()).or_insert((0, vec![]));
         e.0 += 1;
         if e.1.len() < 3 {
@@ -139,6 +143,11 @@ impl Report {
         if let Some(p) = PathBuf::from(&out).parent() {
             let _ = std::fs::create_dir_all(p);
         }
+        let mut counters = self.counters.clone();
+        let retries = crate::run::TIMEOUT_RETRIES.load(std::sync::atomic::Ordering::SeqCst);
+        if retries > 0 {
+            counters.insert("executions_repeated_after_wall_limit".into(), retries);
+        }
         let mut dis = Vec::new();
         for (sig, (n, list)) in &self.disagreements {
             let mut files = Vec::new();
@@ -160,7 +169,7 @@ impl Report {
             "distinct_nontrivial": self.nontrivial.len(),
             "distinct_outcomes": self.outcomes.len(),
             "rule": self.rule, "samples": self.samples, "bound": self.bound, "caps_hit": self.caps_hit,
-            "counters": self.counters, "exhaustive": self.exhaustive && self.caps_hit.is_empty(),
+            "counters": counters, "exhaustive": self.exhaustive && self.caps_hit.is_empty(),
             "assumptions": self.assumptions, "not_covered": self.not_covered,
             "supplementary_sampled": self.sampled_supplement,
             "disagreements": dis, "machinery_errors": self.machinery_errors,
